@@ -1,6 +1,6 @@
 (* C19 — The package cache is transparent and survives crashes and concurrent
    writers.  Property theorems only; proofs are in Proofs/CacheProofs.v. *)
-From Apko Require Import Base.Prelude Model.Cache Spec.CacheSpec Proofs.CacheProofs Generated.C19Cache.
+From Apko Require Import Base.Prelude Model.Cache Spec.CacheSpec Proofs.CacheProofs Proofs.CacheTemp Generated.C19Cache.
 Open Scope string_scope. Open Scope list_scope.
 
 (* For every origin, every NUMBER of builders, each running the index
@@ -16,11 +16,119 @@ Open Scope string_scope. Open Scope list_scope.
    bytes for its key.  Unbounded: induction over the schedule with an invariant
    over [fold_left step].  No writer under a final name is left in the code,
    so no builder kind is excluded any more. *)
-Theorem c19_invariant : forall origin gunzip (bs : list builder) (sched : list nat),
-  origin_gunzip origin gunzip -> builders_ok origin bs ->
-  CacheSound origin (dsk (run gunzip (init (progs origin bs)) sched)).
+Theorem c19_invariant : forall origin srv gunzip (bs : list builder) (sched : list nat),
+  origin_gunzip origin gunzip -> etag_names_content origin srv -> builders_ok origin bs ->
+  CacheSound origin (dsk (run gunzip srv (init (progs bs)) sched)).
 Proof. exact population_sound. Qed.
 Print Assumptions c19_invariant.
+
+(* The index-revision half, explicitly.  The origin may change its index
+   revision between ANY two steps ([srv] is an arbitrary function of the step
+   number: any sequence of updates and roll-backs, also between one builder's
+   HEAD, its Stat and its GET), any number of index downloads and package
+   builders run and are killed in any interleaving.  In every reachable state
+   every advertised APKINDEX/<etag>.tar.gz (and <etag>.etag) is complete and
+   holds exactly the bytes the origin served together with THAT etag: the etag
+   was really answered at some earlier step, with this body, and whenever the
+   origin answers with this etag the body is this one. *)
+Theorem c19_index_revision_exact : forall origin srv gunzip (bs : list builder) sched dir etag,
+  origin_gunzip origin gunzip -> etag_names_content origin srv -> builders_ok origin bs ->
+  let s := run gunzip srv (init (progs bs)) sched in
+  dsk s (PIndex dir etag) <> None ->
+  exists body,
+    resolve (dsk s) (PIndex dir etag) = Some (body, true) /\
+    (exists t, t < clk s /\ srv t dir = (etag, body)) /\
+    (forall t, fst (srv t dir) = etag -> snd (srv t dir) = body).
+Proof.
+  intros origin srv gunzip bs sched dir etag Hgz Hsrv Hok s Hex.
+  exists (origin (PIndex dir etag)). split; [|split].
+  - apply (population_sound origin srv gunzip bs sched Hgz Hsrv Hok (PIndex dir etag) eq_refl Hex).
+  - destruct (index_names_were_served gunzip srv false bs sched dir etag Hex) as (t & Ht & E).
+    exists t. split; [exact Ht|]. pose proof (Hsrv t dir) as B. rewrite E in B.
+    destruct (srv t dir) as [e b]. simpl in *. congruence.
+  - intros t E. rewrite <- E. apply Hsrv.
+Qed.
+Print Assumptions c19_index_revision_exact.
+
+(* The design decision behind it, pinned: the file is named by the etag of the
+   GET response, not of the HEAD.  With the HEAD's etag the statement is FALSE:
+   the origin moves from E1 to E2 between a builder's HEAD and its GET, and E2's
+   bytes end up, complete, under E1's name (seeded change C19-2).  On the same
+   origin and schedule the code as it is keeps the cache sound. *)
+Theorem c19_head_etag_refuted : exists origin srv gunzip sched dir etag c,
+  etag_names_content origin srv /\ origin_gunzip origin gunzip /\
+  resolve (dsk (run gunzip srv (init [[Head 0 dir true]]) sched)) (PIndex dir etag) = Some (c, true) /\
+  c <> origin (PIndex dir etag) /\
+  CacheSound origin (dsk (run gunzip srv (init (progs [BIndex dir])) sched)).
+Proof.
+  exists h_origin, h_srv, w_gunzip, (repeat 0 12), "i", "E1", (h_body "E2").
+  destruct head_etag_witness as (A & B & _).
+  split; [exact h_srv_ok|]. split; [intros dir h; reflexivity|].
+  split; [exact A|]. split; [exact B|].
+  apply population_sound; [intros dir h; reflexivity | exact h_srv_ok | intros dir a [E|[]]; discriminate].
+Qed.
+Print Assumptions c19_head_etag_refuted.
+
+(* ... and tied to the source: in cacheTransport.get the cachePlacer callback
+   computes the name from the etag of the response it is handed, and
+   retrieveAndSaveFile hands it the response whose body it copies — which is
+   what the model's index builder does (its Get step carries no outside name). *)
+Theorem c19_index_name_code :
+  (forall dir, name_sources_of (after_head_and_miss (BIndex dir)) = index_name_sources) /\
+  retrieve_response_flow = response_flow_model.
+Proof. split; [intros dir|]; reflexivity. Qed.
+Print Assumptions c19_index_name_code.
+
+(* Temporary names are private.  No hypothesis at all: for every origin, every
+   list of builders and every schedule, whatever a step of builder [i] changes
+   on the disk is a temporary name of builder [i] itself, or a name without an
+   owner (a cache directory, an advertised name) — never a temporary path of
+   another builder; and the paths two builders may still write are disjoint.
+   (In the model the identity [o] of a temporary name stands for the O_EXCL
+   guarantee of os.CreateTemp / os.MkdirTemp; c19_temp_names_code ties it.) *)
+Theorem c19_private_temp_names : forall gunzip srv (bs : list builder) sched,
+  let s := run gunzip srv (init (progs bs)) sched in
+  (forall i p, dsk (step gunzip srv s i) p <> dsk s p -> owner p = Some i \/ owner p = None) /\
+  (forall i j pi pj p, nth_error (procs s) i = Some pi -> nth_error (procs s) j = Some pj -> i <> j ->
+     In p (writes pi) -> ~ In p (writes pj)).
+Proof.
+  intros gunzip srv bs sched s. split.
+  - intros i p. apply (private_temp_names gunzip srv false bs sched i p).
+  - intros i j pi pj p. apply (write_sets_disjoint gunzip srv false bs sched i j pi pj p).
+Qed.
+Print Assumptions c19_private_temp_names.
+
+(* ... and the invariant NEEDS it.  Two index downloads that share one fixed
+   temporary name (seeded change C19-3): both miss, the first publishes its
+   link, the second truncates and rewrites the shared file, finds the
+   destination present and removes "its" copy — AdvertiseCachedFile's os.Remove
+   of the target of the published link: the entry exists and resolves to
+   nothing, for ever.  The same two downloads on the same schedule with private
+   names keep the cache sound. *)
+Theorem c19_shared_temp_refuted : exists origin srv gunzip sched n,
+  etag_names_content origin srv /\ origin_gunzip origin gunzip /\ is_adv n = true /\
+  let d := dsk (run gunzip srv (init [[Head 0 "i" false]; [Head 0 "i" false]]) sched) in
+  d n <> None /\ resolve d n = None /\
+  progs [BIndex "i"; BIndex "i"] = [[Head 0 "i" false]; [Head 1 "i" false]] /\
+  CacheSound origin (dsk (run gunzip srv (init (progs [BIndex "i"; BIndex "i"])) sched)).
+Proof.
+  exists w_origin, w_srv, w_gunzip, t_sched, (PIndex "i" "E").
+  destruct shared_temp_witness as (_ & A & _ & B).
+  split; [exact w_srv_ok|]. split; [exact w_gunzip_ok|]. split; [reflexivity|].
+  cbv zeta. split; [change (t_disk (PIndex "i" "E") <> None); rewrite A; discriminate|].
+  split; [exact B|]. split; [reflexivity|].
+  apply population_sound; [exact w_gunzip_ok | exact w_srv_ok | intros dir a [E|[E|[]]]; discriminate].
+Qed.
+Print Assumptions c19_shared_temp_refuted.
+
+(* how the temporary files and directories are created at every download site,
+   read from the source: os.CreateTemp / os.MkdirTemp (a fresh name per call)
+   in retrieveAndSaveFile, PackageData and ExpandApk, fixed names only INSIDE
+   ExpandApk's private directory; and the path that is advertised / renamed is
+   the one CreateTemp returned *)
+Theorem c19_temp_names_code : temp_sites = temp_sites_model /\ temp_flows = temp_flows_model.
+Proof. split; reflexivity. Qed.
+Print Assumptions c19_temp_names_code.
 
 (* From any sound cache state a lookup is a miss, or a hit with exactly the
    origin's bytes for the requested key (never another package's or another
@@ -46,14 +154,14 @@ Print Assumptions c19_transparent.
    fetchOffline opens is a complete entry with the origin's bytes".  REFUTED:
    fetchOffline takes the newest entry of the directory whatever its name,
    which may be the temporary file of a killed (or still running) download. *)
-Theorem c19_offline_refuted : exists origin gunzip (bs : list builder) sched e c,
-  builders_ok origin bs /\ (forall b, In b bs -> is_reader b = false) /\
-  read_offline (dsk (run gunzip (init (progs origin bs)) sched)) e = Some (c, false) /\
+Theorem c19_offline_refuted : exists origin srv gunzip (bs : list builder) sched e c,
+  builders_ok origin bs /\ etag_names_content origin srv /\
+  read_offline (dsk (run gunzip srv (init (progs bs)) sched)) e = Some (c, false) /\
   forall n, origin n <> c.
 Proof.
-  exists w_origin, w_gunzip, w2_bs, [0; 0; 0], (PTmpFile "i" 0), ["i1"].
+  exists w_origin, w_srv, w_gunzip, w2_bs, w2_sched, (PTmpFile "i" 0), ["i1"].
   split; [intros dir a [E|[]]; discriminate|].
-  split; [intros b [<-|[]]; reflexivity|].
+  split; [exact w_srv_ok|].
   destruct offline_returns_partial as [A B]. split; [exact A|exact B].
 Qed.
 Print Assumptions c19_offline_refuted.
@@ -126,11 +234,11 @@ Definition ex_origin : path -> content := fun n =>
 Definition ex_apk : apk :=
   {| a_sig := Some ["sig"]; a_ctl := ["ctl"]; a_dat := ["gz1"; "gz2"]; a_tar := ["t1"; "t2"; "t3"];
      a_ctlh := "c"; a_dath := "d" |}.
-Definition ex_bs := [BPackage "p" ex_apk; BIndex "i" "E"; BPackage "p" ex_apk].
+Definition ex_bs := [BPackage "p" ex_apk; BIndex "i"; BPackage "p" ex_apk].
 Fixpoint alternate (n : nat) : list nat := match n with O => [] | S k => [0; 2; 1] ++ alternate k end.
 Example c19_two_builders_hit :
   builders_ok ex_origin ex_bs /\ (forall b, In b ex_bs -> is_reader b = false) /\
-  let d := dsk (run w_gunzip (init (progs ex_origin ex_bs)) (alternate 40)) in
+  let d := dsk (run w_gunzip w_srv (init (progs ex_bs)) (alternate 40)) in
   read_package (fun _ => "d") d "p" "c" =
     Hit {| m_ctl := ["ctl"]; m_sig := Some ["sig"]; m_dat := ["gz1"; "gz2"]; m_tar := ["t1"; "t2"; "t3"] |} /\
   read_index d "i" "E" = Some (["i1"; "i2"], true) /\
@@ -151,15 +259,15 @@ Qed.
    builders and without any crash (finding C19-F2): cachedPackage looks for the
    signature when only the control section is advertised and reads its absence
    as "unsigned", then finds data and tar, advertised meanwhile. *)
-Theorem c19_lookup_not_atomic_refuted : exists origin gunzip datahash_of (bs : list builder) sched1 sched2 dir ctlh m m',
+Theorem c19_lookup_not_atomic_refuted : exists origin srv gunzip datahash_of (bs : list builder) sched1 sched2 dir ctlh m m',
   builders_ok origin bs /\ (forall b, In b bs -> is_reader b = false) /\
-  let s0 := init (progs origin bs) in
-  let d1 := dsk (run gunzip s0 sched1) in
-  let d2 := dsk (run gunzip s0 (sched1 ++ sched2)) in
+  let s0 := init (progs bs) in
+  let d1 := dsk (run gunzip srv s0 sched1) in
+  let d2 := dsk (run gunzip srv s0 (sched1 ++ sched2)) in
   read_package_seq datahash_of d1 d2 dir ctlh = Hit m /\ m_sig m = None /\
   read_package datahash_of d2 dir ctlh = Hit m' /\ m_sig m' = Some (origin (PMember dir MSig ctlh)).
 Proof.
-  exists ex_origin, w_gunzip, (fun _ => "d"), [BPackage "p" ex_apk], (repeat 0 19), (repeat 0 30), "p", "c".
+  exists ex_origin, w_srv, w_gunzip, (fun _ => "d"), [BPackage "p" ex_apk], (repeat 0 19), (repeat 0 30), "p", "c".
   eexists. eexists.
   split.
   { intros dir a [E|[]]; inversion E; subst; repeat split; try reflexivity;
